@@ -12,6 +12,8 @@ everything here is RELATIVE to C12's theorems (imported, not re-assumed).
       every column count, every extension degree, every segment width `N ≥ 1`, partial last segment
   §2  algebra (any commutative rings `B → E`, C12's hypotheses): `evaluate_polys(_over)` = `ldeSpec`,
       row `r`, column `c` = `poly_c(offset·g^r)` by Horner's rule
+  §2b `StarkDomain::new`: accessors; `evaluate_columns_over` / `evaluate_polys_over` use the
+      trace-to-LDE blowup (n·lde_blowup rows over the LDE coset), not the constraint-evaluation blowup
   §3  `interpolate_columns` interpolates; the LDE of the interpolant over the un-shifted domain
       contains the trace rows at the multiples of the blowup factor
   §4  row digests: prover = verifier for ALL hashers, rows, extension degrees and option values
@@ -22,6 +24,7 @@ NOT covered by theorems: the `concurrent` feature (split-radix segment FFT, batc
 `batch_iter_mut!`): correspondence only (serial build in `./check`).
 -/
 import Wf.Lemmas.LdeSpec
+import Wf.Lemmas.LdeDomain
 import Wf.Lemmas.LdeHash
 import Wf.Props.C12
 set_option linter.unusedSectionVars false
@@ -200,6 +203,105 @@ theorem evaluate_polys_eq_lde_spec (x : ExtView B E)
       have h2 : m.elementsPerRow / x.degree = polys.length := hnc
       omega
     rw [List.getD_eq_getElem?_getD, List.getElem?_eq_getElem hlen, Option.getD_some]
+
+/-- `StarkDomain::new(air)` (trace length `2^(K+1)`, constraint-evaluation blowup `2^a`, LDE blowup
+`2^b`, `1 ≤ a ≤ b`; any field operations): the accessors have their documented values, and the
+domain data read by `evaluate_polys_over` / `evaluate_columns_over` is (`trace_twiddles`,
+`trace_to_lde_blowup = 2^b`, `offset`) — the LDE blowup, which differs from `trace_to_ce_blowup =
+2^a` whenever `a < b`. -/
+theorem stark_domain_new_accessors {B E : Type} (c : Ctx B E) (K a b : Nat) (ha : 1 ≤ a)
+    (hab : a ≤ b) (hta : K + 1 + a ≤ c.twoAdicity) (off : B) (tws : Array B)
+    (htw : getTwiddles (baseCtx c) (2 ^ (K + 1)) = some tws) :
+    ∃ d, starkDomainNew c (2 ^ (K + 1)) (2 ^ a) (2 ^ b) off = some d ∧
+      d.toDomain = ⟨tws, 2 ^ b, off⟩ ∧ d.traceLength = 2 ^ (K + 1) ∧
+      d.ceDomainSize = 2 ^ (K + 1 + a) ∧ d.ldeDomainSize = 2 ^ (K + 1 + b) ∧
+      d.traceToCeBlowup = 2 ^ a ∧ d.traceToLdeBlowup = 2 ^ b ∧ d.ceToLdeBlowup = 2 ^ (b - a) ∧
+      d.offset = off :=
+  starkDomainNew_spec c K a b ha hab hta off tws htw
+
+/-- `ColMatrix::evaluate_columns_over(domain)` for a domain with `trace_to_lde_blowup = 2^b`
+(any `b ≥ 0`): one result column per polynomial, each with `n·2^b` entries — the LDE domain size —
+entry `r` = `poly(s·g^r)` with `g` the generator of the LDE domain `root(K+1+b)` -/
+theorem evaluate_columns_over_eq_coset_evaluations (polys : ColMatrix E) (K b : Nat)
+    (hall : ∀ p ∈ polys, p.size = 2 ^ (K + 1)) (s : B) (hs0 : s ≠ 0) (hta : K + 1 + b ≤ ta)
+    (hroot : root (K + 1) = root (K + 1 + b) ^ 2 ^ b)
+    (hG : φ (root (K + 1 + b)) ^ 2 ^ (K + b) = -1) :
+    ∃ tws cols, getTwiddles (ringCtx φ invB invE root ta) (2 ^ (K + 1)) = some tws ∧
+      evaluateColumnsOver (ringCtx φ invB invE root ta) polys ⟨tws, 2 ^ b, s⟩ = some cols ∧
+      cols.length = polys.length ∧
+      ∀ cc, cc < polys.length → (cols.getD cc #[]).size = 2 ^ (K + 1 + b) ∧
+        ∀ r, r < 2 ^ (K + 1 + b) →
+          (cols.getD cc #[]).getD r 0 =
+            ∑ j ∈ range (2 ^ (K + 1)),
+              (polys.getD cc #[]).getD j 0 * (φ s * φ (root (K + 1 + b)) ^ r) ^ j := by
+  obtain ⟨tws, htw, _, _⟩ := getTwiddles_spec φ invB invE root ta K (by omega)
+  have hcol : ∀ (p : Array E), p.size = 2 ^ (K + 1) →
+      ∃ r', evaluatePolyWithOffset (ringCtx φ invB invE root ta) p tws s (2 ^ b) = some r' ∧
+        r'.size = 2 ^ (K + 1 + b) ∧ ∀ x, x < 2 ^ (K + 1 + b) → r'.getD x 0 =
+          ∑ j ∈ range (2 ^ (K + 1)), p.getD j 0 * (φ s * φ (root (K + 1 + b)) ^ x) ^ j := by
+    intro p hp
+    obtain ⟨tws', r', h1, h2, h3, h4⟩ := C12.evaluate_poly_with_offset_eq_coset_evaluations φ invB invE
+      root ta K b hta hroot hG p hp s hs0
+    rw [htw] at h1
+    cases h1
+    exact ⟨r', h2, h3, h4⟩
+  let g : Array E → Array E :=
+    fun p => (evaluatePolyWithOffset (ringCtx φ invB invE root ta) p tws s (2 ^ b)).getD #[]
+  refine ⟨tws, polys.map g, htw, ?_, by simp, fun cc hcc => ?_⟩
+  · unfold evaluateColumnsOver
+    apply mapM_eq_some_map
+    intro p hp
+    obtain ⟨r', h2, _⟩ := hcol p (hall p hp)
+    simp only [g, h2, Option.getD_some]
+  · obtain ⟨r', h2, h3, h4⟩ := hcol (polys)[cc] (hall _ (List.getElem_mem hcc))
+    have hg : (polys.map g).getD cc #[] = r' := by
+      rw [List.getD_eq_getElem?_getD, List.getElem?_map, List.getElem?_eq_getElem hcc]
+      simp [g, h2]
+    have hp : polys.getD cc #[] = (polys)[cc] := by
+      rw [List.getD_eq_getElem?_getD, List.getElem?_eq_getElem hcc, Option.getD_some]
+    rw [hg, hp]
+    exact ⟨h3, h4⟩
+
+/-- … in particular on `StarkDomain::new(air)` with constraint-evaluation blowup `2^a` smaller than
+(or equal to) the LDE blowup `2^b`: `n·2^b` rows over the LDE coset (not `n·2^a`) -/
+theorem evaluate_columns_over_stark_domain_uses_lde_blowup (polys : ColMatrix E) (K a b : Nat)
+    (ha : 1 ≤ a) (hab : a ≤ b)
+    (hall : ∀ p ∈ polys, p.size = 2 ^ (K + 1)) (s : B) (hs0 : s ≠ 0) (hta : K + 1 + b ≤ ta)
+    (hroot : root (K + 1) = root (K + 1 + b) ^ 2 ^ b)
+    (hG : φ (root (K + 1 + b)) ^ 2 ^ (K + b) = -1) :
+    ∃ d cols, starkDomainNew (ringCtx φ invB invE root ta) (2 ^ (K + 1)) (2 ^ a) (2 ^ b) s = some d ∧
+      d.traceToCeBlowup = 2 ^ a ∧ d.traceToLdeBlowup = 2 ^ b ∧
+      evaluateColumnsOver (ringCtx φ invB invE root ta) polys d.toDomain = some cols ∧
+      cols.length = polys.length ∧
+      ∀ cc, cc < polys.length → (cols.getD cc #[]).size = 2 ^ (K + 1 + b) ∧
+        ∀ r, r < 2 ^ (K + 1 + b) →
+          (cols.getD cc #[]).getD r 0 =
+            ∑ j ∈ range (2 ^ (K + 1)),
+              (polys.getD cc #[]).getD j 0 * (φ s * φ (root (K + 1 + b)) ^ r) ^ j := by
+  obtain ⟨tws, cols, htw, hcols, hlen, hspec⟩ := evaluate_columns_over_eq_coset_evaluations φ invB invE
+    root ta polys K b hall s hs0 hta hroot hG
+  obtain ⟨d, hd, hdom, _, _, _, hce, hlde, _, _⟩ := starkDomainNew_spec (ringCtx φ invB invE root ta)
+    K a b ha hab (show K + 1 + a ≤ ta by omega) s tws htw
+  exact ⟨d, cols, hd, hce, hlde, by rw [hdom]; exact hcols, hlen, hspec⟩
+
+/-- `RowMatrix::evaluate_polys_over::<N>` on `StarkDomain::new(air)`: the LDE specification with the
+LDE blowup `2^(b+1)`, whatever the constraint-evaluation blowup `2^a ≤ 2^(b+1)` is -/
+theorem evaluate_polys_over_stark_domain_eq_lde_spec (x : ExtView B E)
+    (hv : ViewOk (ringCtx φ invB invE root ta) x) (N : Nat) (hN : 0 < N)
+    (polys : ColMatrix E) (hne : polys ≠ []) (K a b : Nat) (ha : 1 ≤ a) (hab : a ≤ b + 1)
+    (hall : ∀ p ∈ polys, p.size = 2 ^ (K + 1)) (s : B) (hs0 : s ≠ 0)
+    (hta : K + 1 + (b + 1) ≤ ta)
+    (hroot : root (K + 1) = root (K + 1 + (b + 1)) ^ 2 ^ (b + 1))
+    (hG : φ (root (K + 1 + (b + 1))) ^ 2 ^ (K + (b + 1)) = -1) :
+    ∃ d m, starkDomainNew (ringCtx φ invB invE root ta) (2 ^ (K + 1)) (2 ^ a) (2 ^ (b + 1)) s = some d ∧
+      evaluatePolysOver (ringCtx φ invB invE root ta) x N polys d.toDomain = some m ∧
+      m.numRows = 2 ^ (K + 1 + (b + 1)) ∧ m.numCols x = polys.length ∧
+      m.rows x 0 = ldeSpec (ringCtx φ invB invE root ta) polys s (2 ^ (b + 1)) := by
+  obtain ⟨tws, m, htw, hm, hnr, hnc, hrows, _⟩ := evaluate_polys_over_eq_lde_spec φ invB invE root ta x
+    hv N hN polys hne K b hall s hs0 hta hroot hG
+  obtain ⟨d, hd, hdom, _⟩ := starkDomainNew_spec (ringCtx φ invB invE root ta)
+    K a (b + 1) ha hab (show K + 1 + a ≤ ta by omega) s tws htw
+  exact ⟨d, m, hd, by rw [hdom]; exact hm, hnr, hnc, hrows⟩
 
 /-! ## §3 interpolation, then evaluation -/
 
@@ -457,6 +559,16 @@ example : ((interpolateColumns C12.ctx17 [#[1, 2, 3, 4], #[9, 9, 0, 16]]).bind f
           [m.row (ExtView.base 0) 0 0, m.row (ExtView.base 0) 0 2, m.row (ExtView.base 0) 0 4,
            m.row (ExtView.base 0) 0 6]) =
     some [some [1, 9], some [2, 9], some [3, 0], some [4, 16]] := by decide +kernel
+
+/-- `StarkDomain::new` with constraint-evaluation blowup 2 and LDE blowup 4 on 4 rows: the
+accessors, and `evaluate_columns_over` returns 16 (= 4·4, not 4·2) Horner values per column -/
+example : (starkDomainNew C12.ctx17 4 2 4 3).map (fun d =>
+    (d.traceToCeBlowup, d.traceToLdeBlowup, d.ldeDomainSize, d.ceDomainSize, d.toDomain.blowup)) =
+    some (2, 4, 16, 8, 4) := by decide +kernel
+example : (starkDomainNew C12.ctx17 4 2 4 3).bind (fun d =>
+      evaluateColumnsOver C12.ctx17 [#[1, 2, 3, 4]] d.toDomain) =
+    some [((List.range 16).map fun r => C12.horner17 [1, 2, 3, 4] (3 * 3 ^ r % 17)).toArray] := by
+  decide +kernel
 
 /-- row digests with a transparent "hasher" (`hash_elements` = the chunk, `merge_many` = the list of
 chunks): 7 columns, options (4, 2): partition size `max(⌈7/4⌉, 2) = 2`, four partitions -/
